@@ -15,6 +15,8 @@ JSON forms
           ["handoff", h, slot, h2, c2, body, via]       via: bytes | str | preserve
           ["reenter", h, body, how]                     how: context | run
           ["finish_again", h, exn|None]
+          ["handler", body]                              body runs inside an `except` block (an unrelated exception is being
+                                                        handled); for the model the body's statements are simply in sequence
   case    {"classes": [[id, [base ids], ...]], "registry": [[cls, ["fields", fields] | ["raise", exn]]],
            "dests": [[id, behave, exn]], "pre": [...ops before the program...], "prog": [stmt...]}
 """
@@ -57,6 +59,10 @@ def type_name(t):
 
 HOSTILE_LO, HOSTILE_HI = 60, 70
 UNENCODABLE = [60, 61, 62, 63, 64, 65, 66]     # what a FileDestination (orjson + json_default) cannot write
+
+
+class _Handled(Exception):
+    """the unrelated exception that is being handled while a ["handler", body] statement runs its body"""
 
 
 class Hostile(object):
@@ -179,24 +185,34 @@ def c_stmt(st):
         return C("SAct", Nat(h), C({"with": "WithBlock", "ctx": "CtxFinish", "run": "RunFinish"}[style]), bool(task),
                  c_type(t), c_fields(fs),
                  c_opt(sers, lambda s: C("action_sers", c_type(t), c_serlist(s["start"]), c_serlist(s["success"]))),
-                 c_fields(succ), [c_stmt(x) for x in body])
+                 c_fields(succ), c_stmts(body))
     if k == "raise":
         return C("SRaise", c_exn(st[1]))
     if k == "try":
-        return C("STry", [c_stmt(x) for x in st[1]])
+        return C("STry", c_stmts(st[1]))
     if k == "tb":
         return C("STraceback", c_exn(st[1]))
     if k == "handoff":
         _, h, slot, h2, c2, body, via = st
-        return C("SHandoff", Nat(h), Nat(slot), Nat(h2), Nat(c2), [c_stmt(x) for x in body])
+        return C("SHandoff", Nat(h), Nat(slot), Nat(h2), Nat(c2), c_stmts(body))
     if k == "reenter":
-        return C("SReenter", Nat(st[1]), [c_stmt(x) for x in st[2]])
+        return C("SReenter", Nat(st[1]), c_stmts(st[2]))
     if k == "finish_again":
         return C("SFinishAgain", Nat(st[1]), c_opt(st[2], c_exn))
     if k == "rawwrite":
         _, t, fs, ser = st
         return C("SRawWrite", c_fields(fs), c_opt(ser, lambda x: C("message_ser", c_type(t), c_serlist(x))))
     raise ValueError(st)
+
+
+def c_stmts(stmts):
+    out = []
+    for st in stmts:
+        if st[0] == "handler":
+            out += c_stmts(st[1])
+        else:
+            out.append(c_stmt(st))
+    return out
 
 
 def c_dest(d):
@@ -251,7 +267,7 @@ def all_dest_ids(case):
 
 def model_expr(case):
     pre = [c_preop(o) for o in case.get("pre", [])]
-    prog = [c_stmt(s) for s in case["prog"]]
+    prog = c_stmts(case["prog"])
     ids = [Nat(i) for i in all_dest_ids(case)]
     return ("let r := run_prog %s %s %s in (observe (fst r) %s, snd r)"
             % (to_coq(c_config(case)), to_coq(pre), to_coq(prog), to_coq(ids)))
@@ -344,19 +360,38 @@ def build_classes(spec):
                12: TypeError, 13: ArithmeticError, 14: ZeroDivisionError}
     for cid, bases in spec:
         def __str__(self):
-            if getattr(self, "sr", False):
+            sr = getattr(self, "sr", False)
+            if sr == 2:
+                raise StrExit("str raises something that is not an Exception")
+            if sr:
                 raise RuntimeError("str raises")
             return self.args[0] if self.args else ""
+
+        def __repr__(self):
+            if getattr(self, "rr", False):
+                raise AttributeError("repr raises")
+            return "Cls(%r)" % (self.args,)
 
         def __bool__(self):
             return not getattr(self, "falsy", False)
         classes[cid] = type("Cls%d" % cid, tuple(classes[b] for b in bases),
-                            {"__str__": __str__, "__bool__": __bool__, "__module__": "verifgen"})
+                            {"__str__": __str__, "__repr__": __repr__, "__bool__": __bool__, "__module__": "verifgen"})
     return classes
 
 
 class LoggingRaised(BaseException):
     pass
+
+
+class StrExit(BaseException):
+    """raised by str() of some generated exceptions: not an Exception subclass"""
+
+
+EMPTY_TEXT = 120       # text atom of exceptions whose str() is the empty string
+
+
+def exn_text(t):
+    return "" if t == EMPTY_TEXT else "text%d" % t
 
 
 class SimCrash(BaseException):
@@ -450,11 +485,13 @@ class Interp(object):
     def make_exn(self, e):
         cls = self.classes[e["cls"]]
         try:
-            obj = cls("text%d" % e["text"])
+            obj = cls(exn_text(e["text"]))
         except Exception:
             obj = cls()
         try:
-            obj.sr = bool(e["sr"])
+            # str() raises: an Exception (even ids) or a BaseException-only class (odd ids); repr() raises for every third
+            obj.sr = (2 if e["id"] % 2 else 1) if e["sr"] else 0
+            obj.rr = e["id"] % 3 == 0
             obj.falsy = bool(e.get("falsy", False))
         except Exception:
             pass
@@ -658,7 +695,8 @@ class Interp(object):
             try:
                 self.stmt(st, c)
             finally:
-                self.probe(c)
+                if st[0] != "handler":      # its body's statements are probed one by one
+                    self.probe(c)
 
     def start(self, st):
         _, h, style, task, t, fs, sers, succ, body, api = st
@@ -816,6 +854,11 @@ class Interp(object):
                 raise
             except BaseException as e:
                 self.check_same(e, "try")
+        elif k == "handler":
+            try:
+                raise _Handled("being handled")
+            except _Handled:
+                self.block(st[1], c)
         elif k == "tb":
             e = self.make_exn(st[1])
             self.g(c)
@@ -1099,6 +1142,8 @@ def canon_msg(m, interp):
                 cv = ["safefail"]
             elif isinstance(v, str) and re.match(r"^text\d+$", v):
                 cv = ["a", int(v[4:])]
+            elif v == "" and "exception" in m:
+                cv = ["a", EMPTY_TEXT]
             elif isinstance(v, str) and re.match(r"^'f\d+'$", v):
                 cv = ["a", 1000 + int(v[2:-1])]
             elif isinstance(v, str) and v[:1] == "'" and v[-1:] == "'" and v[1:-1] in RESERVED:
@@ -1150,6 +1195,8 @@ def _escapes(stmts):
             return True
         if st[0] == "reenter" and _escapes(st[2]):
             return True
+        if st[0] == "handler" and _escapes(st[1]):
+            return True
     return False
 
 
@@ -1157,7 +1204,7 @@ class Gen(object):
     def __init__(self, rng, depth=4, width=4, p_raise=0.15, p_typed=0.3, p_fault_ser=0.0, p_handoff=0.08,
                  p_reenter=0.05, p_tb=0.05, p_finish_again=0.05, base_only=0.3, sr=0.15, p_try=0.15,
                  styles=("with", "with", "ctx", "run"), p_actlog=0.08, p_task=0.08, p_raw=0.0, p_hostile=0.0,
-                 p_finish_inside=0.0, p_reserved=0.0, p_logcall=0.0):
+                 p_finish_inside=0.0, p_reserved=0.0, p_logcall=0.0, p_handler=0.05):
         self.rng = rng
         self.__dict__.update(locals())
         self.next_h = 0
@@ -1198,7 +1245,7 @@ class Gen(object):
         rng = self.rng
         cls = cls if cls is not None else rng.choice(self.class_ids)
         e = {"id": self.next_exn, "cls": cls,
-             "text": rng.randrange(100, 120), "sr": cls >= 50 and rng.random() < self.sr,
+             "text": rng.randrange(100, 121), "sr": cls >= 50 and rng.random() < self.sr,
              "falsy": cls >= 50 and rng.random() < 0.12}
         self.next_exn += 1
         return e
@@ -1320,6 +1367,8 @@ class Gen(object):
         if r < 0.62 + self.p_raise:
             return ["raise", self.exn()]
         r2 = rng.random()
+        if depth > 0 and rng.random() < self.p_handler:
+            return ["handler", self.stmts(depth - 1, enclosing, c)]
         if depth > 0 and r2 < self.p_try:
             return ["try", self.stmts(depth - 1, enclosing, c)]
         if r2 < self.p_try + self.p_tb:
@@ -1417,7 +1466,7 @@ def describe(case):
                 if st[6] is not None:
                     out.append("typed_action")
                 m = max(m, walk(st[8], depth + 1))
-            elif st[0] == "try":
+            elif st[0] in ("try", "handler"):
                 m = max(m, walk(st[1], depth))
             elif st[0] == "handoff":
                 out.append("via:" + st[6])
@@ -1443,10 +1492,10 @@ def shrink(case):
         for i in range(len(stmts)):
             yield stmts[:i] + stmts[i + 1:]
         for i, st in enumerate(stmts):
-            body_ix = {"act": 8, "try": 1, "handoff": 5, "reenter": 2}.get(st[0])
+            body_ix = {"act": 8, "try": 1, "handoff": 5, "reenter": 2, "handler": 1}.get(st[0])
             if body_ix is None:
                 continue
-            if st[0] in ("try", "reenter"):
+            if st[0] in ("try", "reenter", "handler"):
                 yield stmts[:i] + st[body_ix] + stmts[i + 1:]
             for v in variants(st[body_ix]):
                 st2 = list(st)
